@@ -1,5 +1,5 @@
 SPECIFICATION GSpec
-CONSTANTS MaxIn = 2  MaxOps = 3  MidRunChunks = FALSE  TinyInput = FALSE  Bugs = {}
+CONSTANTS MaxIn = 2  MaxOps = 3  MidRunChunks = FALSE  TinyInput = FALSE  Bugs = {}  Profile = "all"
  Encs = {"stream", "mt", "raw", "block"}  Grants = {"big"}  Checks = {"crc"}  BSizes = {0, 1}
 VIEW GView
 ACTION_CONSTRAINT Emit
